@@ -38,6 +38,7 @@ def marker_file():
     stats = os.path.join(root, 'stats.h5')
     tree, prof = RM.build_stats(stats, {lf: 3 for lf in RM.LEAVES})
     out = os.path.join(root, 'reference_markers.h5')
+    saved = getattr(core.CUR, '_mp_epoch', 0)
     mpmodel.SCHED.reset(K=0)
     import cell_type_mapper.diff_exp.markers as MK
     with warnings.catch_warnings():
@@ -47,6 +48,10 @@ def marker_file():
             tmp_dir=os.path.join(root, 'scratch'), exact_penetrance=True,
             max_gb=1)
     mk = RM.read_markers(out)
+    if core.CUR is not None:
+        # built once per job, inside the first path: must not shift the
+        # names of that path's scheduler choices
+        core.CUR._mp_epoch = saved
     STATE.update(path=out, tree=tree, root=root, mk=mk)
     return STATE
 
